@@ -4028,15 +4028,20 @@ impl Collection {
                     // return the same document repeatedly and the duplicates
                     // would consume the caller's `limit`. First-occurrence
                     // order is preserved, matching the other branches.
+                    //
+                    // The scan is never stopped at `limit`: it walks the index in
+                    // *key* order, while a bounded page is an end of the result in
+                    // *id* order. Stopping after `limit` ids kept the documents with
+                    // the smallest (largest) keys, not the smallest (largest) ids,
+                    // so a bare `Field` filter paged differently from the equivalent
+                    // `And([Field])`. Like `And`/`Or`, return the full match set and
+                    // let the caller sort and trim it.
                     let mut rt: UniqueVec<DocumentId> =
                         UniqueVec::with_capacity(Self::reserve_hint(limit));
                     index.try_range_query_ids(filter, order.is_descending(), |ids| {
                         for id in ids {
                             if candidates.is_none_or(|s| s.contains(id)) {
                                 rt.push(*id);
-                                if limit > 0 && rt.len() >= limit {
-                                    return false;
-                                }
                             }
                         }
                         true
